@@ -67,6 +67,22 @@ fn explore(api: &Api, setting_ix: usize, seed: u64, cx: &mut Cx) {
             }
         }
     }
+    // ALL pairs of positions altered together: by the same XOR mask (a comparison that folds differences with ^ instead
+    // of |, byte- or word-wise, cancels them) and by +1/-1 (one that sums them); explored on the natively stored states
+    for i in 0..nh {
+        for j in i + 1..nh {
+            for d in [0x01u8, 0x80, 0xff] {
+                let mut m = genuine.clone();
+                m[i] ^= d;
+                m[j] ^= d;
+                cands.push(("pairsub".into(), m));
+            }
+            let mut m = genuine.clone();
+            m[i] = m[i].wrapping_add(1);
+            m[j] = m[j].wrapping_sub(1);
+            cands.push(("pairsub".into(), m));
+        }
+    }
     cands.push(("other-session-same-user".into(), again.ke3.clone()));
     cands.push(("other-user".into(), bob_login.ke3.clone()));
     cands.push(("other-password".into(), pw2_login.ke3.clone()));
@@ -128,6 +144,9 @@ fn explore(api: &Api, setting_ix: usize, seed: u64, cx: &mut Cx) {
     for (sname, codec_name, sblob) in &state_blobs {
         let sname = *sname;
         for (class, c) in &cands {
+            if class == "pairsub" && *codec_name != "native" {
+                continue;
+            }
             let expect_ok = sname == "matched" && c == &genuine;
             // (the second honest session accepts its own finalization, which is in the menu as other-session-same-user)
             let expect_ok = expect_ok || (sname == "other-session" && c == &again.ke3);
@@ -187,8 +206,8 @@ pub fn run(tier: Tier, seed: u64) -> i32 {
         property: "C03",
         tier,
         seed,
-        rule: "4 pending server states x the complete candidate menu (genuine; all Nh*8 bit flips; all Nh*255 byte substitutions; foreign finalizations; constants; confusable values; tape strings; truncations/extensions) x 2 settings x 20 suites; each (state, candidate) is one transition of ServerLogin::finish".into(),
-        bounds: json!({"suites": 20, "settings": 2, "server_states": 4, "state_codecs": ["native", "bincode", "json"], "bit_flips": "all", "byte_substitutions": "all offsets x 255 values", "quick_equals_thorough": true}),
+        rule: "4 pending server states x the complete candidate menu (genuine; all Nh*8 bit flips; all Nh*255 byte substitutions; all pairs of positions altered by a common XOR mask (01, 80, ff) or by +1/-1; foreign finalizations; constants; confusable values; tape strings; truncations/extensions) x 2 settings x 20 suites; each (state, candidate) is one transition of ServerLogin::finish".into(),
+        bounds: json!({"suites": 20, "settings": 2, "server_states": 4, "state_codecs": ["native", "bincode", "json"], "bit_flips": "all", "byte_substitutions": "all offsets x 255 values", "pair_substitutions": "all position pairs x {xor 01, xor 80, xor ff, +1/-1} (native states)", "quick_equals_thorough": true}),
         assumptions: vec![],
         exhaustive: true,
         crosscheck: json!(null),
